@@ -449,6 +449,10 @@ structure RequestOk (H : Http) (method : Bytes) (uri : UriParts) (ext : Option B
   /-- `Uri::builder()` accepts the three parts at the receiver -/
   builds : H.uriBuild (Pseudo.request method uri ext).scheme
       (effAuthority uri.authority (hmGet (mapOf l) nHost)) (Pseudo.request method uri ext).path = some u
+  /-- the submitted `Host` values (if any) are all the same value: the sender compares only the
+      first one with the URI's authority, the receiver refuses a request whose `Host` values differ
+      (D-12e); several identical ones pass -/
+  hosts : allFirst (hmGroup (mapOf l) nHost) = true
 
 theorem recvRequest_sent (H : Http) (method : Bytes) (uri : UriParts) (ext : Option Bytes)
     (l : List FieldLine) (u : Uri) (h : Header)
@@ -468,7 +472,8 @@ theorem recvRequest_sent (H : Http) (method : Bytes) (uri : UriParts) (ext : Opt
   subst hh
   unfold recvRequest
   rw [tryFrom_wireFields H _ l hok.pseudo hok.regular hcap]
-  simp only [Res.bind, Header.intoRequestParts]
+  simp only [Res.bind, Header.intoRequestParts, hok.hosts, Bool.not_true, Bool.and_false,
+    Bool.false_eq_true, if_false]
   have hb := hok.builds
   have hauthority : (Pseudo.request method uri ext).authority = uri.authority := rfl
   have hmethod : (Pseudo.request method uri ext).method = some method := rfl
